@@ -250,7 +250,7 @@ package stack
 //@ spec cntMain(calls []Call, n int) int = n <= 0 ? 0 : cntMain(calls, n-1) + (calls[n-1].Func.IsPkgMain ? 1 : 0)
 //@ spec cntLoc(calls []Call, n int, loc int) int = n <= 0 ? 0 : cntLoc(calls, n-1, loc) + (calls[n-1].Location == loc ? 1 : 0)
 //@ spec FrameLt(a []Call, b []Call, x int) bool = 0 <= x && x < len(a) && x < len(b) && (a[x].Func.Complete < b[x].Func.Complete || (a[x].Func.Complete == b[x].Func.Complete && (a[x].DirSrc < b[x].DirSrc || (a[x].DirSrc == b[x].DirSrc && (a[x].Line < b[x].Line || (a[x].Line == b[x].Line && FrameLt(a, b, x+1)))))))
-//@ pred LocsOK(calls []Call) = forall i :: 0 <= i && i < len(calls) ==> 0 <= calls[i].Location && calls[i].Location < 5
+//@ pred noinline LocsOK(calls []Call) = forall i :: 0 <= i && i < len(calls) ==> 0 <= calls[i].Location && calls[i].Location < 5
 //@ spec cM(s *Stack) int = cntMain(s.Calls, len(s.Calls))
 //@ spec cL(s *Stack, loc int) int = cntLoc(s.Calls, len(s.Calls), loc)
 //@ pred CountsEq(s *Stack, r *Stack) = cM(s) == cM(r) && cL(s,0) == cL(r,0) && cL(s,1) == cL(r,1) && cL(s,2) == cL(r,2) && cL(s,3) == cL(r,3) && cL(s,4) == cL(r,4)
@@ -260,7 +260,7 @@ package stack
 //@ pred Lt2(s *Stack, r *Stack) = cL(s,2) > cL(r,2) || (cL(s,2) == cL(r,2) && Lt3(s, r))
 //@ pred Lt1(s *Stack, r *Stack) = cL(s,1) > cL(r,1) || (cL(s,1) == cL(r,1) && Lt2(s, r))
 //@ pred CountsLt(s *Stack, r *Stack) = cM(s) > cM(r) || (cM(s) == cM(r) && Lt1(s, r))
-//@ pred StackLt(s *Stack, r *Stack) = CountsLt(s, r) || (CountsEq(s, r) && FrameLt(s.Calls, r.Calls, 0))
+//@ pred noinline StackLt(s *Stack, r *Stack) = CountsLt(s, r) || (CountsEq(s, r) && FrameLt(s.Calls, r.Calls, 0))
 
 //@ func (*Stack).less
 //@   option overflow=on
@@ -283,7 +283,7 @@ package stack
 //@   loop 3: invariant FrameLt(s.Calls, r.Calls, 0) <==> FrameLt(s.Calls, r.Calls, rangeindex+1)
 //@   loop 3: decreases len(s.Calls) - rangeindex
 
-//@ pred SigLt(s *Signature, r *Signature) = StackLt(&s.Stack, &r.Stack) || (!StackLt(&r.Stack, &s.Stack) && ((s.Locked && !r.Locked) || (s.Locked == r.Locked && s.State < r.State)))
+//@ pred noinline SigLt(s *Signature, r *Signature) = StackLt(&s.Stack, &r.Stack) || (!StackLt(&r.Stack, &s.Stack) && ((s.Locked && !r.Locked) || (s.Locked == r.Locked && s.State < r.State)))
 
 //@ func (*Signature).less
 //@   requires s != nil && r != nil && LocsOK(s.Stack.Calls) && LocsOK(r.Stack.Calls)
@@ -293,7 +293,11 @@ package stack
 // Lemmas (spec level, arbitrary heap): the order is a strict weak order.
 //@ lemma [C13] cntBounds(calls []Call, n int, loc int)
 //@   requires 0 <= n
-//@   ensures 0 <= cntLoc(calls, n, loc) && cntLoc(calls, n, loc) <= n && 0 <= cntMain(calls, n) && cntMain(calls, n) <= n
+//@   ensures 0 <= cntLoc(calls, n, loc) && cntLoc(calls, n, loc) <= n
+//@   induction n
+//@ lemma [C13] cntMainBounds(calls []Call, n int)
+//@   requires 0 <= n
+//@   ensures 0 <= cntMain(calls, n) && cntMain(calls, n) <= n
 //@   induction n
 //@ lemma [C13] cntSum(calls []Call, n int)
 //@   requires 0 <= n && n <= len(calls) && LocsOK(calls)
@@ -315,3 +319,57 @@ package stack
 //@   requires 0 <= x && len(a) == len(b) && len(b) == len(c) && !FrameLt(a, b, x) && !FrameLt(b, a, x) && !FrameLt(b, c, x) && !FrameLt(c, b, x)
 //@   ensures !FrameLt(a, c, x) && !FrameLt(c, a, x)
 //@   induction len(a) - x
+
+//@ lemma [C13] stackLtIrreflexive(s *Stack)
+//@   ensures !StackLt(s, s)
+//@   uses frameIrreflexive
+//@ lemma [C13] stackLtAsymmetric(s *Stack, r *Stack)
+//@   requires StackLt(s, r)
+//@   ensures !StackLt(r, s)
+//@   uses frameAsymmetric
+//@ lemma [C13] stackLtTransitive(a *Stack, b *Stack, c *Stack)
+//@   requires StackLt(a, b) && StackLt(b, c)
+//@   ensures StackLt(a, c)
+//@   uses frameTransitive
+//@ lemma [C13] stackIncomparableTransitive(a *Stack, b *Stack, c *Stack)
+//@   requires LocsOK(a.Calls) && LocsOK(b.Calls) && LocsOK(c.Calls)
+//@   requires !StackLt(a, b) && !StackLt(b, a) && !StackLt(b, c) && !StackLt(c, b)
+//@   ensures !StackLt(a, c) && !StackLt(c, a)
+//@   uses frameIncomparableTransitive, cntSum
+//@ lemma [C13] sigLtIrreflexive(s *Signature)
+//@   ensures !SigLt(s, s)
+//@   uses stackLtIrreflexive
+//@ lemma [C13] sigLtAsymmetric(s *Signature, r *Signature)
+//@   requires SigLt(s, r)
+//@   ensures !SigLt(r, s)
+//@   uses stackLtAsymmetric
+//@ lemma [C13] sigLtTransitive(a *Signature, b *Signature, c *Signature)
+//@   requires LocsOK(a.Stack.Calls) && LocsOK(b.Stack.Calls) && LocsOK(c.Stack.Calls)
+//@   requires SigLt(a, b) && SigLt(b, c)
+//@   ensures SigLt(a, c)
+//@   uses stackLtTransitive, stackIncomparableTransitive, stackLtAsymmetric
+//@ lemma [C13] sigIncomparableTransitive(a *Signature, b *Signature, c *Signature)
+//@   requires LocsOK(a.Stack.Calls) && LocsOK(b.Stack.Calls) && LocsOK(c.Stack.Calls)
+//@   requires !SigLt(a, b) && !SigLt(b, a) && !SigLt(b, c) && !SigLt(c, b)
+//@   ensures !SigLt(a, c) && !SigLt(c, a)
+//@   uses stackIncomparableTransitive, stackLtTransitive, stackLtAsymmetric
+//@ lemma [C13] stdlibOnlyAfterUserCode(a *Stack, b *Stack, j int)
+//@   requires LocsOK(a.Calls) && LocsOK(b.Calls)
+//@   requires forall i :: 0 <= i && i < len(a.Calls) ==> a.Calls[i].Location == Stdlib && !a.Calls[i].Func.IsPkgMain
+//@   requires 0 <= j && j < len(b.Calls) && (b.Calls[j].Func.IsPkgMain || b.Calls[j].Location == GoMod || b.Calls[j].Location == GOPATH || b.Calls[j].Location == GoPkg)
+//@   ensures StackLt(b, a) && !StackLt(a, b)
+//@   uses cntAllStdlib, cntWitness, cntMainWitness, cntBounds, cntMainBounds
+//@ lemma [C13] cntAllStdlib(calls []Call, n int, loc int)
+//@   requires 0 <= n && n <= len(calls) && loc != Stdlib && forall i :: 0 <= i && i < len(calls) ==> calls[i].Location == Stdlib && !calls[i].Func.IsPkgMain
+//@   ensures cntLoc(calls, n, loc) == 0 && cntMain(calls, n) == 0
+//@   induction n
+//@ lemma [C13] cntWitness(calls []Call, n int, j int, loc int)
+//@   requires 0 <= j && j < n && n <= len(calls) && calls[j].Location == loc
+//@   ensures cntLoc(calls, n, loc) >= 1
+//@   induction n
+//@   uses cntBounds
+//@ lemma [C13] cntMainWitness(calls []Call, n int, j int)
+//@   requires 0 <= j && j < n && n <= len(calls) && calls[j].Func.IsPkgMain
+//@   ensures cntMain(calls, n) >= 1
+//@   induction n
+//@   uses cntMainBounds
